@@ -12,7 +12,7 @@ Not decided: the history-level statement (first pass with t at or after d).
 """
 from .. import build, flow, paths
 from ..ir import AnalysisError
-from ..paths import fmt, ptr_parts, strip_casts
+from ..paths import fmt, ptr_parts, strip_casts, NoValue
 from . import fib, C01
 
 ORDERED = ("ult", "ule", "ugt", "uge", "slt", "sle", "sgt", "sge")
@@ -87,11 +87,13 @@ def check_t1(chk, mods, K, min_n=2):
                             chk.ob("T1.cyclic-only", iid, True, "equality test of time values", inst.loc, name)
                     else:
                         ok = cc[1] in ("slt", "sle", "sgt", "sge", "eq", "ne") and (cc[3][0] == "c" or cc[2][0] == "c")
+                        if not ok and a == "diff" and b == "diff" and cc[1] in ("slt", "sle", "sgt", "sge", "eq", "ne"):
+                            ok = True       # two signed distances (from a common origin) compared as signed numbers
                         if not ok and cc[3][0] == "c" and cc[3][1] == 32 and (cc[1], cc[3][2]) in (
                                 ("ugt", 0x7fffffff), ("uge", 0x80000000), ("ult", 0x80000000), ("ule", 0x7fffffff)):
                             ok = True       # an unsigned comparison with 2^31 is a test of the sign bit of the difference
                         chk.ob("T1.cyclic-only", iid, ok,
-                               "a time difference is compared %s" % ("signed against a constant" if ok else
+                               "a time difference is compared %s" % ("signed, against a constant or another difference" if ok else
                                                                      "with '%s': a cyclic difference must be interpreted as signed" % cc[1]),
                                inst.loc, name)
     chk.expect("T1", "comparisons involving time values or differences", n, min_n)
@@ -282,10 +284,40 @@ def check_t3(chk, m, K):
                             "(which fibres it moves is not decided)" % e_.callee, e_.inst.loc)
                 return
     n = 0
+
+    def takes_off_timerq(e):
+        return e.kind == "call" and (e.callee == "list_iterator_remove" or
+                                     (e.callee in ("list_extract", "list_remove") and e.args and K.queue_arg(e.args[0]) == "timerq"))
+    helper_moves = {}
+
+    def helper_takes_off_timerq(name):
+        """A helper of this unit that takes its fibre off the timer queue on every path, except paths on which it finds the
+        fibre on the run queue already (a fibre waiting on the timer queue is on no other queue: C01's invariant)."""
+        if name not in helper_moves:
+            helper_moves[name] = False
+            g = m.functions.get(name)
+            if g is not None and not g.decl:
+                try:
+                    gps = [q for q in paths.enumerate_paths(g, m, loop_bound=1) if not paths.is_assert_fail_path(q)]
+                except Exception:
+                    gps = []
+                live = []
+                for q in gps:
+                    on_runq = False
+                    for c, taken, inst in q.conds:
+                        for x in paths.subexprs(c):
+                            if x[0] == "call" and x[1] == "list_contains" and K.queue_arg(x[2][0]) == "runq":
+                                try:
+                                    on_runq = paths.cond_holds((c, taken, inst), {x: 1}) and not paths.cond_holds((c, taken, inst), {x: 0})
+                                except NoValue:
+                                    pass
+                    if not on_runq:
+                        live.append(q)
+                helper_moves[name] = bool(live) and all(any(takes_off_timerq(e) for e in q.events) for q in live)
+        return helper_moves[name]
     for s, p in segs:
         # the head leaves the timer queue on this segment: through the iterator, or by extracting / removing it
-        moved = any(e.kind == "call" and (e.callee == "list_iterator_remove" or
-                                          (e.callee in ("list_extract", "list_remove") and e.args and K.queue_arg(e.args[0]) == "timerq"))
+        moved = any(takes_off_timerq(e) or (e.kind == "call" and isinstance(e.callee, str) and helper_takes_off_timerq(e.callee))
                     for e in p.events)
         test = None
         for c, taken, inst in p.conds:
